@@ -103,6 +103,16 @@ fn packets(run: &RunInfo, acc_total: &mut Acc) {
             }
             let base = match guarded(|| (real.decode)(&bytes)) {
                 Ok(Ok((dbg, 0, _))) => dbg,
+                Ok(Ok((dbg, rest, off))) => {
+                    // the packet decodes, but the remainder does not start at the end of the announced
+                    // length although nothing follows the packet
+                    acc.violation(viol(
+                        format!("c14/packet/{}/{}/{:016x}/alone", ty.key, deviating(&table, ty, v), h64(&bytes)),
+                        format!("type {} ({origin})\npacket : {}\nalone  : {dbg}\nthe remainder is {rest} bytes at offset {off}; the packet announces exactly {} bytes and nothing follows it", ty.key, hex_short(&bytes), bytes.len()),
+                        bytes.len() as u64,
+                    ));
+                    return;
+                }
                 other => {
                     // decoding the packet on its own fails: that is C03's subject, not C14's
                     acc.count("undecodable_alone", 1);
@@ -396,7 +406,71 @@ where
     }
 }
 
+/// Repeated fields at the same seam: the items, then bytes that are not a further item (another
+/// tag, the field's own tag alone, its tag with a cut-off or unusable item). The vector must be
+/// the encoded one and the remainder must start where the last item ends.
+fn seam_vec<T, L, E>(name: &str, vals: &[Vec<T>], acc: &mut Acc)
+where
+    T: ZvtSerializerImpl<L, E, Dflt> + PartialEq + Debug + Clone,
+    Vec<T>: ZvtSerializerImpl<L, E, Dflt>,
+    L: Length,
+    E: Encoding<T>,
+{
+    for tag in [0x27u16, 0x1f45u16] {
+        let tb = tag_bytes(tag);
+        for v in vals {
+            let enc = match guarded(|| v.serialize_tagged(Some(Tag(tag)))) {
+                Ok(e) => e,
+                Err(_) => continue,
+            };
+            let mut sufs: Vec<Vec<u8>> = vec![vec![], vec![0x00], vec![0x06], vec![0x28], vec![0x28, 0x01, 0x09], vec![0xff], vec![0x1f], vec![0x1f, 0x46, 0x01, 0x09]];
+            // the field's own tag: alone, with a length byte and nothing else, with an item cut short,
+            // with a length form the style does not know
+            sufs.push(tb.clone());
+            if name.starts_with("tlv") {
+                sufs.push([tb.clone(), vec![0x05]].concat());
+                sufs.push([tb.clone(), vec![0x05, 0x41]].concat());
+                sufs.push([tb.clone(), vec![0x80, 0x41, 0x42, 0x43]].concat());
+                sufs.push([tb.clone(), vec![0x83, 0x00, 0x00, 0x01, 0x41]].concat());
+                sufs.push([tb.clone(), vec![0x82, 0x01]].concat());
+            } else {
+                sufs.push([tb.clone(), vec![0xf0]].concat());
+                sufs.push([tb.clone(), vec![0xf0, 0xf5, 0x41]].concat());
+            }
+            for suf in sufs {
+                acc.count("cases", 1);
+                acc.count("calls", 1);
+                acc.count("seam_cases", 1);
+                acc.count("seam_vec_cases", 1);
+                let mut input = enc.clone();
+                input.extend_from_slice(&suf);
+                let key = format!("c14/seam-vec/{name}/tag={tag:04x}/{}/suffix={}", hex_short(&enc), hex_short(&suf));
+                let r = guarded(|| <Vec<T> as ZvtSerializerImpl<L, E, Dflt>>::deserialize_tagged(&input, Some(Tag(tag))).map(|(x, rest)| (x == *v, rest.to_vec(), format!("{x:?}"))));
+                match r {
+                    Err(p) => acc.violation(viol(key, format!("{name} items {v:?}: deserialize_tagged({}) panicked: {p}", hex_short(&input)), input.len() as u64)),
+                    Ok(Err(e)) => acc.violation(viol(key, format!("{name} items {v:?}: deserialize_tagged({}) = Err({e:?}); expected the items and the remainder {}", hex_short(&input), hex_short(&suf)), input.len() as u64)),
+                    Ok(Ok((eq, rest, dbg))) => {
+                        if !eq || rest != suf {
+                            acc.violation(viol(key, format!("{name} items {v:?}: deserialize_tagged({}) = ({dbg}, remainder {}), expected the items and the remainder {}", hex_short(&input), hex_short(&rest), hex_short(&suf)), input.len() as u64));
+                        } else {
+                            acc.count("seam_vec_ok", 1);
+                        }
+                    }
+                }
+            }
+        }
+    }
+}
+
 fn seams(acc: &mut Acc) {
+    {
+        let s = |n: usize| -> String { (0..n).map(|i| (b'a' + (i % 26) as u8) as char).collect() };
+        seam_vec::<String, Tlv, Dflt>("tlv/strings", &[vec![s(5), s(5)], vec![s(1)], vec![s(127), s(128)], vec![String::new(), s(3)]], acc);
+        seam_vec::<u16, Tlv, BigEndian>("tlv/u16-be", &[vec![1, 0x1234], vec![0xffff]], acc);
+        seam_vec::<u8, Tlv, Dflt>("tlv/u8", &[vec![1, 2, 3], vec![0]], acc);
+        seam_vec::<usize, Tlv, Bcd>("tlv/usize-bcd", &[vec![5, 978], vec![1234567]], acc);
+        seam_vec::<String, Llv, Dflt>("llv/strings", &[vec![s(5), s(9)], vec![s(99)]], acc);
+    }
     let s = |n: usize| -> String { (0..n).map(|i| (b'a' + (i % 26) as u8) as char).collect() };
     let hx = |n: usize| -> String { (0..n).map(|i| format!("{:02x}", (i * 7 + 3) & 0xff)).collect() };
     // variable-length styles
@@ -467,6 +541,9 @@ pub fn run(run: &RunInfo) -> Summary {
     if acc.get("suffix_untouched") > 0 {
         acc.witness("suffixes were handed back untouched");
     }
+    if acc.get("seam_vec_ok") > 0 {
+        acc.witness("repeated fields stopped at the end of their last item");
+    }
     if acc.get("seam_cases") > 0 {
         acc.witness("length-prefixed containers exercised at the deserialize_tagged seam");
     }
@@ -480,13 +557,14 @@ pub fn run(run: &RunInfo) -> Summary {
         transitions: acc.get("calls"),
         traces_validated: cases,
         distinct_nontrivial: acc.get("suffix_untouched") + acc.get("seam_cases"),
-        rule: format!("31 commands x canonical values (<= {k} deviating fields, all-present rows, sizing rows straddling 127/128 and 254/255/256) x suffixes (every single byte, 49 two-byte and 343 three-byte strings over {{00,06,1F,80,81,82,FF}}, every captured blob, the packet itself, every tag of the type alone and followed by a small group); plus, for baseline and all-present values of every command, the packet with the tagged groups of any nesting level reordered (all orders up to 4 groups), with a group unknown to the type at every position of every level, and with date/time parts announced in 1..6 bytes: the value alone against the independent layout, and value, error and stop position against the same packet followed by up to 12 suffixes; plus deserialize_tagged for Tlv/Llv/Lllv/Adpu/Fixed<1..8> x integer/BCD/text/hex encodings x tag {{none, 27, 1F45}} x 611 suffixes. distinct_nontrivial = (value, suffix) cases that decoded with the suffix handed back"),
+        rule: format!("31 commands x canonical values (<= {k} deviating fields, all-present rows, sizing rows straddling 127/128 and 254/255/256) x suffixes (every single byte, 49 two-byte and 343 three-byte strings over {{00,06,1F,80,81,82,FF}}, every captured blob, the packet itself, every tag of the type alone and followed by a small group); plus, for baseline and all-present values of every command, the packet with the tagged groups of any nesting level reordered (all orders up to 4 groups), with a group unknown to the type at every position of every level, and with date/time parts announced in 1..6 bytes: the value alone against the independent layout, and value, error and stop position against the same packet followed by up to 12 suffixes; plus deserialize_tagged for Tlv/Llv/Lllv/Adpu/Fixed<1..8> x integer/BCD/text/hex encodings x tag {{none, 27, 1F45}} x 611 suffixes, and for repeated fields (Vec) of five item kinds followed by bytes that are no further item (another tag, the own tag alone, with a cut-off item, with an unknown length form). distinct_nontrivial = (value, suffix) cases that decoded with the suffix handed back"),
         exhaustive: true,
         required_witnesses: vec![
             "suffixes were handed back untouched".into(),
             "packet with extended length header followed by a suffix".into(),
             "length-prefixed containers exercised at the deserialize_tagged seam".into(),
             "packets in other than the encoder's form decoded alike with and without a suffix".into(),
+            "repeated fields stopped at the end of their last item".into(),
         ],
         assumptions: vec!["suffixes are taken from a finite alphabet, not all byte strings".into(), "greedy positional containers without an announced length are outside the statement".into()],
         bounds: json!({"deviating_fields_k": k, "suffix_kinds": "single bytes, 2-byte alphabet, blobs, self, type tags"}),
